@@ -97,6 +97,11 @@ fn tok_profile(profile: &str, seed: u64, n: usize, out: &mut dyn Write) {
                     }
                 }
             }
+            // costs at the limits of their types throughout (C02: "costs within 32-bit range"): raw connector two times out of three
+            "c02x" => {
+                cfg.cost_mag = 30000;
+                cfg.kind = Some(if rng.chance(2, 3) { 1 } else { 0 });
+            }
             "c06" | "c08" => {
                 cfg.kind = if rng.chance(1, 2) { None } else { Some(0) };
                 cfg.max_ids = 6;
